@@ -138,13 +138,26 @@ impl GqlTranslator {
             });
         }
 
-        // Apply WHERE filter
+        // Apply WHERE filter. A WHERE that follows an OPTIONAL MATCH belongs to that optional
+        // match (it decides which optional matches count; it never removes a row of the
+        // mandatory part), so it becomes the condition of the left join.
         if let Some(where_clause) = &query.where_clause {
             let predicate = self.translate_expression(&where_clause.expression)?;
-            plan = LogicalOperator::Filter(FilterOp {
-                predicate,
-                input: Box::new(plan),
-            });
+            let after_optional = query.match_clauses.last().is_some_and(|m| m.optional)
+                && query.unwind_clauses.is_empty()
+                && query.merge_clauses.is_empty();
+            plan = match plan {
+                LogicalOperator::LeftJoin(mut left_join)
+                    if after_optional && left_join.condition.is_none() =>
+                {
+                    left_join.condition = Some(predicate);
+                    LogicalOperator::LeftJoin(left_join)
+                }
+                other => LogicalOperator::Filter(FilterOp {
+                    predicate,
+                    input: Box::new(other),
+                }),
+            };
         }
 
         // Handle SET clauses
